@@ -177,7 +177,7 @@ def describe(case):
 
 def run(tier):
   ck = Check('C14', tier)
-  ck.prove('props/C14.v', gen_targets=['heapdict'], extra=['harness/RunC14.vo'])
+  ck.prove('props/C14.v', gen_targets=['heapdict', 'search', 'geoassignments'], extra=['harness/RunC14.vo', 'harness/RunSearch.vo'])
   rng = random.Random(ck.seed * 1000003 + 14)
   n = 2000 if tier == 'quick' else 100000
   corpus = [
@@ -212,6 +212,7 @@ def run(tier):
     small = shrink(c, lambda t: bool(correspond(Check('C14', tier), [t], [run_impl_safe(t)[0]])))
     ck.tie_broken('correspondence', 'HeapDict vs model/Heap.v on %d of %d histories' % (len(bad), len(cases)),
                   {'first': describe(small), 'raw': repr_case(small), 'impl': repr(run_impl_safe(small)[0])})
+  search_part(ck, tier)
   ck.cov['rule'] = ('seeded random push/read histories (capacity 0-6, 1-5 dictionary keys incl. 1 == 1.0, items: ints, '
                     'heavy ties, tuples, floats incl. +-0/inf, records comparable only through a score) plus a fixed '
                     'corpus; a case is non-trivial when more items are pushed than the capacity (eviction occurs); '
@@ -220,6 +221,34 @@ def run(tier):
   ck.cov['correspondence'] = {'histories_compared_model_vs_impl': len(cases), 'disagreements': len(bad)}
   ck.assumptions = ['heapq implements its documented contract', 'items pushed under one key are mutually comparable']
   return ck.finish('proof', TRUSTED)
+
+
+def search_part(ck, tier):
+  """Order and cap of the designs returned by both searches."""
+  from . import searchfam, search, search_oracles as so
+  n = 60 if tier == 'quick' else 1500
+  base = ck.seed * 100003 + 14 * 1009
+  res = common.pmap(searchfam.worker, [(base + i, tier, False, ('tables', 'components', 'exhaustive', 'greedy'), None)
+                                       for i in range(n)], chunksize=4)
+  nd = 0
+  for case, out in res:
+    if out.get('build') != 'ok':
+      continue
+    for which in ('exhaustive', 'greedy'):
+      r = out.get(which)
+      if r and r['outcome'] == 'ok':
+        nd += len(r['designs'])
+        fails = so.c14_sorted(r, case['par_final'].get('n_designs', 1))
+        if fails:
+          ck.fail('search-order', '%s search: %s' % (which, fails[0]), {'search_case': searchfam.slim(case), 'which': which})
+    ck.count(('search', case['seed']), nontrivial=bool(out.get('exhaustive', {}).get('designs')))
+  bad, nterms = search.correspond(ck, [o for _, o in res], 'c14s', ['exhaustive', 'greedy'])
+  if bad:
+    ci, comp = bad[0]
+    ck.tie_broken('correspondence', 'search results vs model/Search.v: component %s' % comp,
+                  {'search_case': searchfam.slim(res[ci][0]), 'component': comp})
+  ck.cov['search_part'] = {'cases': len(res), 'designs_checked_for_order_and_cap': nd, 'model_comparisons': nterms,
+                           'disagreements': len(bad)}
 
 
 def run_impl_safe(case):
@@ -238,6 +267,20 @@ def repr_case(case):
 
 
 def replay(data):
+  inp = data.get('input') or {}
+  sc = inp.get('search_case') or next((b['detail'].get('search_case') for b in data.get('tie_broken', [])
+                                       if isinstance(b.get('detail'), dict) and 'search_case' in b['detail']), None)
+  if sc:
+    from . import search, search_oracles as so
+    out = search.run_case(sc)
+    bad = []
+    for which in ('exhaustive', 'greedy'):
+      r = out.get(which)
+      if r and r['outcome'] == 'ok':
+        bad += so.c14_sorted(r, sc['par_final'].get('n_designs', 1))
+        print(which, [(d['T_ids'], d['C_ids'], d['score']) for d in r['designs']])
+    print('property failures:', bad or 'none')
+    return 1 if bad else 0
   raw = (data.get('input') or {}).get('raw') or next(
       (b['detail'] for b in data.get('tie_broken', []) if b['kind'] == 'correspondence'), None)
   if not isinstance(raw, dict):
